@@ -244,6 +244,7 @@ def gen_world(rng, opts=None):
     # how the script constructs the worklist: all arguments positional instead of by keyword; through the
     # deprecated alias `robotools.Worklist` (an EvoWorklist) instead of the recommended class
     wl["ctor_positional"] = rng.random() < 0.12
+    wl["path_by_keyword"] = rng.random() < 0.2  # Worklist(filepath=...) instead of Worklist(path)
     wl["legacy_class"] = rng.random() < 0.08
     return {"device": device, "regime": regime, "worklist": wl, "disk": disk, "labware": labs}
 
@@ -356,6 +357,14 @@ def build_worklist(rt, world, scratch=None, device=None):
         auto_split, diti_mode = np.bool_(auto_split), np.bool_(diti_mode)
     elif w.get("flag_type") == "int":
         auto_split, diti_mode = int(auto_split), int(diti_mode)
+    if w.get("path_by_keyword") and not w.get("ctor_positional"):
+        if w.get("max_volume_default"):
+            return cls(filepath=path, auto_split=auto_split, diti_mode=diti_mode)
+        mv = dec(w["max_volume"])
+        if w.get("max_volume_type") in ("npint", "npfloat"):
+            import numpy as np
+            mv = np.int64(mv) if w["max_volume_type"] == "npint" else np.float64(mv)
+        return cls(filepath=path, max_volume=mv, auto_split=auto_split, diti_mode=diti_mode)
     if w.get("max_volume_default"):
         wl = cls(path, auto_split=auto_split, diti_mode=diti_mode)
     else:
